@@ -65,6 +65,9 @@ func (_this *Encoder) Init(config *configuration.Configuration) {
 // PrepareToEncode MUST be called before using the encoder.
 func (_this *Encoder) PrepareToEncode(writer io.Writer) {
 	_this.writer.SetWriter(writer)
+	// Don't carry a pending array header over from a document that was
+	// abandoned between OnArrayBegin and its first chunk.
+	_this.trySmallArrayHeader = false
 }
 
 // ============================================================================
